@@ -25,6 +25,33 @@ SHRINK_CAP = {"quick": 15.0, "thorough": 90.0}
 MAX_SIGS_PER_SHARD = 4
 
 
+class CaseTimeout(Exception):
+    """the library did not return within the per-case watchdog (an endless loop is reported like an exception)"""
+
+
+def _on_alarm(signum, frame):
+    raise CaseTimeout("no result within the per-case watchdog")
+
+
+def _quiet_unraisable(unraisable):
+    if not isinstance(unraisable.exc_value, CaseTimeout):
+        sys.__unraisablehook__(unraisable)
+
+
+def guarded(mod, case):
+    """run one case under a watchdog (seconds, module attribute CASE_TIMEOUT, default 6)"""
+    import signal
+
+    limit = getattr(mod, "CASE_TIMEOUT", 6.0)
+    signal.signal(signal.SIGALRM, _on_alarm)
+    signal.setitimer(signal.ITIMER_REAL, limit, 0.25)  # repeats until it lands in ordinary code
+    sys.unraisablehook = _quiet_unraisable
+    try:
+        return mod.run_case(case)
+    finally:
+        signal.setitimer(signal.ITIMER_REAL, 0)
+
+
 class _Abort(BaseException):
     """leaves a Hypothesis run from inside the test function (budget exhausted)"""
 
@@ -71,7 +98,14 @@ def run_shard(args):
 
 
 def _run_shard(prop, idx, tier, seed, t_end):
+    import resource
+
     from hxv.lib import case_hash
+
+    try:  # backstop against a runaway allocation inside the library
+        resource.setrlimit(resource.RLIMIT_AS, (6 << 30, 6 << 30))
+    except (ValueError, OSError):
+        pass
 
     mod = importlib.import_module(f"hxv.props.{prop.lower()}")
     shard = mod.shards(tier)[idx]
@@ -93,7 +127,7 @@ def _run_shard(prop, idx, tier, seed, t_end):
         if time.time() > t_end:
             st["short"] = True
             raise _Abort()
-        res = mod.run_case(case)
+        res = guarded(mod, case)
         st["evals"] += 1
         for lab in res.labels:
             st["labels"][lab] += 1
@@ -143,7 +177,7 @@ def _run_shard(prop, idx, tier, seed, t_end):
             def failing(case, sig=sig, best=best, deadline=deadline):
                 if time.time() > deadline:
                     raise _Abort()
-                res = mod.run_case(case)
+                res = guarded(mod, case)
                 for v in res.violations:
                     if v.sig(prop, shard.subject) == sig:
                         size = len(json.dumps(case, default=str))
@@ -262,7 +296,7 @@ def main_check(prop, tier, seed, only=None, jobs=None):
     for fn, case in regress_cases(prop):
         n_regress += 1
         try:
-            res = mod.run_case(case)
+            res = guarded(mod, case)
         except Exception as exc:
             errors.append(f"regress {fn}: " + "".join(traceback.format_exception(exc))[-2000:])
             continue
@@ -390,7 +424,7 @@ def main_replay(prop, path):
     with open(path if os.path.isabs(path) else os.path.join(VERIF, path)) as fh:
         doc = json.load(fh)
     case = doc["case"] if "case" in doc and "property" in doc else doc
-    res = mod.run_case(case)
+    res = guarded(mod, case)
     rc = 0
     for v in res.violations:
         sig = v.sig(prop, doc.get("signature", "|replay|").split("|")[1] if isinstance(doc, dict) else "replay")
